@@ -63,6 +63,8 @@ def structures(tier, seed):
             out.append({"sid": f"lazy;op={op};chunks={chunking}", "part": "lazy", "op": op, "chunking": chunking})
     # several axes in one call: chunked along an operated axis WITHOUT inner/outer, another operated axis in one chunk WITH outer/inner:
     # not the statement's exception (the data is not chunked along the inner/outer axis) - must be accepted like the in-memory call
+    # a vector component chunked along the operated axis whose dimension is NOT the last one of the array
+    out.append({"sid": "lazy;op=vector-Y-not-last;chunks=core-y2", "part": "lazy", "op": "vector-Y-not-last", "chunking": "core-y2"})
     for op in ("multi-diff-Youter-X", "multi-interp-X-Yinner", "multi-max-Xouter-chunkedY"):
         out.append({"sid": f"lazy;op={op};chunks=per-axis", "part": "lazy", "op": op, "chunking": "core-2" if "chunkedY" not in op else "core-y2"})
     for op, pt in (("diff", "outer"), ("interp", "inner"), ("min", "outer")):
@@ -337,6 +339,8 @@ def run_lazy(s):
             return g.apply_as_grid_ufunc(f, c, axis=[("X",)], signature="(Q:center)->(Q:left)", boundary_width={"Q": (1, 0)}, boundary="extend", dask="parallelized")
         if op in ("vector-simple", "fc-vector", "fc-rot-vector"):
             return g.diff({"X": u}, "X", to="center", other_component={"Y": v}, boundary="fill")
+        if op == "vector-Y-not-last":
+            return g.diff({"Y": v}, "Y", to="center", other_component={"X": u}, boundary="fill")
         if op in ("fc-scalar", "fc-rot-scalar"):
             return g.interp(c, "X", to="left", boundary="fill")
         raise ValueError(op)
@@ -434,6 +438,8 @@ def run_native(s):
         "max": lambda a, u_, v_: g.max(a, "Y", boundary="extend"), "cumsum": lambda a, u_, v_: g.cumsum(a, "X", to="left", boundary="fill", fill_value=0.0),
         "derivative": lambda a, u_, v_: g.derivative(a, "X", boundary="extend"), "integrate": lambda a, u_, v_: g.integrate(a, ["X", "Y"]), "average": lambda a, u_, v_: g.average(a, "X"),
         "cumint": lambda a, u_, v_: g.cumint(a, "X", to="left", boundary="fill", fill_value=0.0), "vector": lambda a, u_, v_: g.diff({"X": u_}, "X", to="center", other_component={"Y": v_}, boundary="fill"),
+        # the operated dimension is not the last one of the component
+        "vector-Y": lambda a, u_, v_: g.interp({"Y": v_}, "Y", to="center", other_component={"X": u_}, boundary="extend"),
     }
     layouts = [{"t": 1}, {"t": 3, "y_c": 2, "y_l": 2}, {"t": -1, "x_c": 5, "x_l": 5}, {"x_c": (1, 4, 7), "x_l": (1, 4, 7), "t": 2}, {"x_c": 1, "x_l": 1}, {"t": (1, 3), "y_c": (4, 1), "y_l": (4, 1), "x_c": (11, 1), "x_l": (11, 1)}]
     bad = []
@@ -586,6 +592,8 @@ def replay_lazy(wit):
             return g.cumint(c, "X", to="left", boundary="fill", fill_value=0.0)
         if op in ("vector-simple", "fc-vector", "fc-rot-vector"):
             return g.diff({"X": u}, "X", to="center", other_component={"Y": v}, boundary="fill")
+        if op == "vector-Y-not-last":
+            return g.diff({"Y": v}, "Y", to="center", other_component={"X": u}, boundary="fill")
         if op in ("fc-scalar", "fc-rot-scalar"):
             return g.interp(c, "X", to="left", boundary="fill")
         return None
